@@ -505,5 +505,43 @@ def r11_generators_start_clean(chk):
     common.reuse(chk, r2_generator_reset, ('C12.R2',), 'C01.R11', 'both generators re-initialise, at the start of genCode, every attribute their handlers write and assign the per-call settings on every path (C12.R2): a stale import map or column / row list of the previous (possibly failed) module changes which module a parent name resolves to, hence the OIDs', floor=12)
 
 
+
+def r12_root_needs_no_module(chk):
+    """`iso` is the numeric root 1 whether or not the module that formally defines it (SNMPv2-SMI) was parsed: the
+    shortcut in genNumericOid is decided before any symbol-table test"""
+    model = chk.model
+    ci = model.cls(ir.INTER, 'IntermediateCodeGen')
+    o, fn = ci.find_method('genNumericOid')
+    chk.doc('C01.R12', 'genNumericOid: the test `<parent> == "iso"` (-> arc 1) is not nested inside, and comes before, any '
+                       'test that consults self.symbolTable: a module rooted at { iso ... } resolves without SNMPv2-SMI in '
+                       'the symbol table')
+    tests = [n for n in walk_no_nested(fn) if isinstance(n, ast.If) and isinstance(n.test, ast.Compare) and
+             any(isinstance(c, ast.Constant) and c.value == 'iso' for c in [n.test.left] + n.test.comparators)]
+    ok = len(tests) == 1
+    detail = '%d tests for the root name' % len(tests)
+    if ok:
+        t = tests[0]
+        a = getattr(t, '_parent', None)
+        nested = []
+        while a is not None and a is not fn:
+            if isinstance(a, ast.If) and 'symbolTable' in norm(a.test):
+                nested.append(a)
+            a = getattr(a, '_parent', None)
+        before = [n for n in walk_no_nested(fn) if isinstance(n, ast.If) and 'symbolTable' in norm(n.test) and
+                  n.lineno < t.lineno and cr_enclosing_loop(n) is cr_enclosing_loop(t)]
+        ok = not nested and not before
+        detail = 'the root test is %s' % ('nested in `if %s`' % norm(nested[0].test)[:50] if nested else
+                                           'preceded by `if %s`' % norm(before[0].test)[:50] if before else 'first')
+    chk.ob('C01.R12', 'genNumericOid/iso-before-table-lookups', ok, where(ci.mod, tests[0]) if tests else where(ci.mod, fn),
+           detail)
+
+
+def cr_enclosing_loop(n):
+    a = getattr(n, '_parent', None)
+    while a is not None and not isinstance(a, (ast.For, ast.While, ast.FunctionDef)):
+        a = getattr(a, '_parent', None)
+    return a
+
+
 RULES = [r1_subidentifier_shapes, r2_genoid, r3_numeric, r4_trap, r5_fixpoint, r6_translate, r7_plumbing,
-         r7b_summary_not_aliased, r8_normalisation, r9_symbol_tables_keyed_by_module_name, r10_largest_subidentifier, r11_generators_start_clean]
+         r7b_summary_not_aliased, r8_normalisation, r9_symbol_tables_keyed_by_module_name, r10_largest_subidentifier, r11_generators_start_clean, r12_root_needs_no_module]
